@@ -453,15 +453,24 @@ CHECKS = {
     ),
     "C15": dict(
         engine="cacheprop",
-        technique="property testing (rapid): conservation laws of exported counters vs the real tree and vs per-call outcomes predicted by a model",
+        technique=("property testing (rapid): conservation laws of exported counters vs the real tree and vs per-call outcomes predicted by a model; "
+                   "latency: generated window sets / precisions / sample schedules against a stubbed latency.Now with the harness's own slot bookkeeping; "
+                   "race: collector-shaped stress (one update stream per target + the two refresh loops) under the race detector, reports classified by frame pair"),
         level_text=("Histories with lifecycle calls and refreshes; after every step targetLeaves == number of non-metadata leaves stored == added - deleted; per submitted notification the deltas of "
                     "updated/suppressed/stale/future/empty equal the outcomes predicted by the model (accepted and fed, accepted and withheld, stale, future; each delete path counts as one update; "
                     "atomic accepted counts its contained updates); after UpdateMetadata latestTimestamp == greatest accepted target timestamp. Counter part of C15; latency and race parts are separate parts of this check. Bounded exploration."),
         level_note="a rejected atomic notification is only required to bump its reject counter at least once; lifecycle-generated metadata updates are not judged per call",
         rule=("cases are histories of 1-60 steps over 1-2 targets; non-trivial = the history contains an accepted, a suppressed and a stale update, a delete that removed a leaf, "
-              "and a ConnectError followed by Connect on the same target; distinct = distinct hash of the scenario"),
-        assumptions=COMMON + ["cache.Now is stubbed with a scenario-controlled clock"],
-        parts=[dict(name="random", run="TestC15Random", checks=dict(quick=5000, thorough=25000), shards=dict(quick=1, thorough=16))],
+              "and a ConnectError followed by Connect on the same target; distinct = distinct hash of the scenario. "
+              "latency part: cases are (period, 1-3 windows, precision, 1-20 periods of 0-4 samples); non-trivial = a window with >=2 non-empty covered slots exported avg, max and min in one UpdateReset and a non-empty slot had slid out of a window that was exporting. "
+              "race part: a case is one round (fresh cache, 1-3 streams, both refresh loops); non-trivial = the first UpdateMetadata overlapped the streams, an UpdateMetadata ran between a Reset and the end of that stream, updates were accepted after a Reset and a Sync happened"),
+        assumptions=COMMON + ["cache.Now is stubbed with a scenario-controlled clock",
+                              "latency.Now is stubbed with a scenario-controlled clock; UpdateReset is called exactly once per period (its documented use)",
+                              "race part: workloads are seeded, schedules are the real scheduler's (not reproducible); SetClient and option registration happen before the goroutines start, as their documentation requires"],
+        parts=[dict(name="random", run="TestC15Random", checks=dict(quick=5000, thorough=25000), shards=dict(quick=1, thorough=16)),
+               dict(name="latency", run="TestC15Latency", checks=dict(quick=5000, thorough=50000), shards=dict(quick=1, thorough=8)),
+               dict(name="race", run="TestC15Race", rapid=False, race=True,
+                    args=dict(quick=["-c15.rounds=150"], thorough=["-c15.rounds=2000"]), shards=dict(quick=1, thorough=4))],
     ),
     "C09": dict(
         engine="ctreeprop",
